@@ -1,0 +1,8 @@
+//go:build !verif
+
+// Package verifhook marks places where verification tooling may steer goroutine
+// scheduling. In normal builds Point does nothing.
+package verifhook
+
+// Point marks a scheduling point.
+func Point(name string) {}
